@@ -28,7 +28,8 @@ pub fn prop() -> Option<Prop> {
         rule: "the history contains at least one response served from the cache (no upstream call) and either virtual time passed between the fill and that hit or the hitting query's RD/AD/DO flags differ from those of the filling query",
         assumptions: &[
             "time is tokio's paused clock (cache.rs reads only tokio::time::Instant); moka's capacity eviction is exercised only in sub-check `evict`, where just the safety invariant is checked",
-            "upstream is well-behaved unless the case is in class `sloppy-upstream`: it echoes the question, sends RRSIG/NSEC/NSEC3/DS-in-referral only to DO queries and AD only to AD/DO queries, TTLs < 2^31, RDATA valid for its type",
+            "upstream is well-behaved unless the case is in class `sloppy-upstream`: it echoes the question, sends RRSIG/NSEC/NSEC3/DS-in-referral only to DO queries and AD only to AD/DO queries, TTLs < 2^31, RDATA valid for its type (also for the records it sends with a CLASS other than the question's); it echoes the whole question section and the opcode",
+            "\"the same question\" = opcode plus every entry of the question section (names case-insensitively); requests have at least one question (RequestMessage::new rejects a QUERY without one)",
             "queries are issued one after the other (no two get_response calls in flight)",
         ],
         subchecks: vec![
@@ -68,6 +69,14 @@ fn health(c: &BTreeMap<String, u64>, _thorough: bool) -> Result<(), String> {
         "hit:ext-rcode:low-nibble-3",
         "hit:ext-rcode:low-nibble-other",
         "miss:ext-rcode-refetched-after-misc-bound",
+        "hit:foreign-class:aged",
+        "hit:foreign-class:answer",
+        "hit:foreign-class:authority",
+        "hit:foreign-class:additional",
+        "shape:multi-question-while-first-question-live",
+        "shape:plain-query-after-live-multi-question-fetch",
+        "shape:non-query-opcode-while-question-live",
+        "shape:plain-query-after-live-non-query-fetch",
         "cfg:extreme",
         "cfg:default-ctor",
     ];
@@ -98,10 +107,16 @@ struct PMsg {
     qname: Vec<u8>,
     qtype: u16,
     qclass: u16,
+    /// opcode + whole question section, names in lower case
+    qkey: Vec<u8>,
+    n_questions: usize,
     recs: Vec<PRec>,
 }
 
 impl PMsg {
+    fn opcode(&self) -> u8 {
+        ((self.flags >> 11) & 0xf) as u8
+    }
     fn ad(&self) -> bool {
         self.flags & 0x20 != 0
     }
@@ -128,8 +143,8 @@ fn parse(bytes: &[u8]) -> Result<PMsg, String> {
     if w.end != bytes.len() {
         return Err("trailing octets".into());
     }
-    if w.questions.len() != 1 {
-        return Err(format!("{} questions", w.questions.len()));
+    if w.questions.is_empty() {
+        return Err("no question".into());
     }
     let q = &w.questions[0];
     let mut rcode = w.header.rcode() as u16;
@@ -149,7 +164,8 @@ fn parse(bytes: &[u8]) -> Result<PMsg, String> {
         };
         recs.push(PRec { sec: r.section, owner: lower_wire(&owner), rtype: r.rtype, class: r.class, rdata, ttl: r.ttl });
     }
-    Ok(PMsg { flags: w.header.flags, rcode, qname: lower_wire(&q.name), qtype: q.qtype, qclass: q.qclass, recs })
+    let qkey = upstream::qkey(w.header.opcode(), w.questions.iter().map(|q| (q.name.as_slice(), q.qtype, q.qclass)));
+    Ok(PMsg { flags: w.header.flags, rcode, qname: lower_wire(&q.name), qtype: q.qtype, qclass: q.qclass, qkey, n_questions: w.questions.len(), recs })
 }
 
 fn is_dnssec_extra(r: &PRec) -> bool {
@@ -173,13 +189,22 @@ enum Bound {
 
 /// RFC 2308 §2 classification, from the upstream message alone.
 fn bound_kind(u: &PMsg) -> Bound {
+    bound_kind_c(u, false)
+}
+
+/// `same_class`: only records of the question's class count as answer / SOA /
+/// NS. Whether a record of another class makes a response "an answer" or "a
+/// NODATA" is not settled by the statement, so a retention bound is enforced
+/// only as far as both readings agree (`retention_limit`).
+fn bound_kind_c(u: &PMsg, same_class: bool) -> Bound {
+    let cls = |r: &PRec| !same_class || r.class == u.qclass;
     match u.rcode {
         0 => {
-            if u.recs.iter().any(|r| r.sec == 1 && (r.rtype == u.qtype || u.qtype == 255)) {
+            if u.recs.iter().any(|r| r.sec == 1 && (r.rtype == u.qtype || u.qtype == 255) && cls(r)) {
                 Bound::Answer
-            } else if u.recs.iter().any(|r| r.sec == 2 && r.rtype == 6) {
+            } else if u.recs.iter().any(|r| r.sec == 2 && r.rtype == 6 && cls(r)) {
                 Bound::NoData
-            } else if u.recs.iter().any(|r| r.sec == 2 && r.rtype == 2) {
+            } else if u.recs.iter().any(|r| r.sec == 2 && r.rtype == 2 && cls(r)) {
                 Bound::Delegation
             } else {
                 Bound::NoData
@@ -187,6 +212,29 @@ fn bound_kind(u: &PMsg) -> Bound {
         }
         3 => Bound::NxDomain,
         _ => Bound::Misc,
+    }
+}
+
+fn limit_of(b: Bound, eff: &Eff) -> (u64, &'static str) {
+    match b {
+        Bound::NxDomain => (eff.nx_ms, "nxdomain"),
+        Bound::NoData => (eff.nodata_ms, "nodata"),
+        Bound::Misc => (eff.misc_ms, "misc-error"),
+        Bound::Delegation => (eff.deleg_ms, "delegation"),
+        _ => (u64::MAX, ""),
+    }
+}
+
+/// The configured retention bound for `u` (the more generous one when the
+/// class-blind and the class-aware classification differ; they only differ
+/// for responses with records of a foreign class).
+fn retention_limit(u: &PMsg, eff: &Eff) -> (u64, &'static str) {
+    let a = limit_of(bound_kind_c(u, false), eff);
+    let b = limit_of(bound_kind_c(u, true), eff);
+    if b.0 > a.0 {
+        b
+    } else {
+        a
     }
 }
 
@@ -204,6 +252,9 @@ struct Info {
     tc: bool,
     /// full rcode of the source when it is an extended one (>= 16)
     ext_rcode: Option<(u16, bool)>,
+    /// sections (bit 1 << sec) in which a record of a class other than the
+    /// question's was served
+    foreign_secs: u8,
     src: usize,
     elapsed_ms: u64,
 }
@@ -313,8 +364,10 @@ fn explain_content(
     if rm.rcode != um.rcode {
         return fail(3, format!("{p}:rcode-differs"), format!("returned rcode {} but U{idx} had {}", rm.rcode, um.rcode));
     }
-    if rm.flags & 0x8000 == 0 || (rm.flags >> 11) & 0xf != 0 {
-        return fail(3, format!("{p}:not-a-query-response"), format!("flags {:#06x}", rm.flags));
+    if rm.flags & 0x8000 == 0 || rm.opcode() != q.opcode {
+        // QR set and the opcode of the request (RFC 1035 §4.1.1: copied into
+        // the response)
+        return fail(3, format!("{p}:not-a-query-response"), format!("flags {:#06x}, request opcode {}", rm.flags, q.opcode));
     }
     if rm.tc() != um.tc() {
         return fail(3, format!("{p}:tc-differs"), format!("returned tc={} U{idx} tc={}", rm.tc(), um.tc()));
@@ -391,6 +444,9 @@ fn explain_content(
     // TTLs: reduced by the time in the cache (1 s tolerance), never increased
     let mut min_ttl: Option<u32> = None;
     for (a, b) in &pairs {
+        if a.class != rm.qclass {
+            info.foreign_secs |= 1 << a.sec;
+        }
         if a.ttl > b.ttl {
             return fail(6, format!("{p}:ttl-increased"), format!("{} has TTL {} but upstream said {} ({} ms earlier)", show_rec(a), a.ttl, b.ttl, elapsed));
         }
@@ -422,13 +478,7 @@ fn explain_content(
             return fail(7, "hit:served-after-max-validity", format!("served {elapsed} ms after the fetch, max_validity = {} ms", eff.max_validity_ms));
         }
         let b = bound_kind(um);
-        let (lim, what) = match b {
-            Bound::NxDomain => (eff.nx_ms, "nxdomain"),
-            Bound::NoData => (eff.nodata_ms, "nodata"),
-            Bound::Misc => (eff.misc_ms, "misc-error"),
-            Bound::Delegation => (eff.deleg_ms, "delegation"),
-            _ => (u64::MAX, ""),
-        };
+        let (lim, what) = retention_limit(um, eff);
         if elapsed > lim {
             return fail(7, format!("hit:{what}-retained-too-long"), format!("{what} response U{idx} served {elapsed} ms after the fetch; configured bound {lim} ms"));
         }
@@ -449,13 +499,7 @@ fn validity_ms(e: &Entry, eff: &Eff) -> u64 {
             for r in &p.recs {
                 v = v.min(r.ttl as u64 * 1000);
             }
-            v.min(match bound_kind(p) {
-                Bound::NxDomain => eff.nx_ms,
-                Bound::NoData => eff.nodata_ms,
-                Bound::Misc => eff.misc_ms,
-                Bound::Delegation => eff.deleg_ms,
-                _ => u64::MAX,
-            })
+            v.min(retention_limit(p, eff).0)
         }
     }
 }
@@ -531,9 +575,12 @@ fn build_config(c: &Cfg) -> cache::Config {
 }
 
 fn build_request(q: &Query, id: u16) -> Result<RequestMessage<Vec<u8>>, String> {
-    let flags: u16 = (q.rd as u16) << 8 | (q.ad as u16) << 5 | (q.cd as u16) << 4;
+    let flags: u16 = (q.opcode as u16) << 11 | (q.rd as u16) << 8 | (q.ad as u16) << 5 | (q.cd as u16) << 4;
     let mut a = wire::Asm::new(id, flags);
     a.question(&q.labels_sent(), q.qtype, q.qclass);
+    for (n, t) in q.extra_questions() {
+        a.question(&q.labels_sent_of(n), t, q.qclass);
+    }
     let msg = Message::from_octets(a.buf).map_err(|e| format!("{e:?}"))?;
     let mut req = RequestMessage::new(msg).map_err(|e| format!("{e:?}"))?;
     if q.dok {
@@ -693,13 +740,17 @@ async fn run_async(case: &Case, eff: &Eff, trace: &mut Vec<String>, stats: &mut 
                 };
                 let p = if hit { "hit" } else { "miss" };
                 let qn = lower_wire(&q.labels_lower());
-                // the question of the returned message is the query's
+                let qall = q.all_questions_lower();
+                let qk = upstream::qkey(q.opcode, qall.iter().map(|(n, t, c)| (n.as_slice(), *t, *c)));
+                // the question section of the returned message is the query's
+                // (every entry of it)
                 if let Ok(rm) = &r {
-                    if rm.qname != qn || rm.qtype != q.qtype || rm.qclass != q.qclass {
+                    if rm.qname != qn || rm.qtype != q.qtype || rm.qclass != q.qclass || (rm.qkey[1..] != qk[1..]) {
                         vfail!(
                             format!("{p}:question-differs"),
-                            "step {si} {}: returned question {} type {} class {}",
+                            "step {si} {}: returned question section has {} entries, first: {} type {} class {}",
                             q.render(),
+                            rm.n_questions,
                             show_name(&rm.qname),
                             rm.qtype,
                             rm.qclass
@@ -717,7 +768,7 @@ async fn run_async(case: &Case, eff: &Eff, trace: &mut Vec<String>, stats: &mut 
                 let mut ok: Option<Info> = None;
                 for &i in cands.iter().rev() {
                     let e = &entries[i];
-                    if lower_wire(&e.log.req.name_lower) != qn || e.log.req.qtype != q.qtype || e.log.req.qclass != q.qclass {
+                    if e.log.req.qkey() != qk {
                         continue;
                     }
                     match explain(q, &r, e, i, t1, eff, case.sloppy, hit) {
@@ -749,9 +800,14 @@ async fn run_async(case: &Case, eff: &Eff, trace: &mut Vec<String>, stats: &mut 
                         .filter(|(_, e)| lower_wire(&e.log.req.name_lower) == qn && e.log.req.qtype == q.qtype)
                         .map(|(i, e)| {
                             format!(
-                                "U{i} @{}ms [{}] {}",
+                                "U{i} @{}ms [{}{}] {}",
                                 e.log.t_ms,
                                 e.log.req.flags_str(),
+                                if e.log.req.questions.len() != 1 || e.log.req.opcode != 0 {
+                                    format!("questions={} opcode={}", e.log.req.questions.len(), e.log.req.opcode)
+                                } else {
+                                    String::new()
+                                },
                                 match (&e.parsed, &e.log.resp) {
                                     (Some(p), _) => format!("flags {:#06x} rcode {} {}", p.flags, p.rcode, show_recs(&p.recs)),
                                     (_, Err(x)) => x.clone(),
@@ -775,10 +831,62 @@ async fn run_async(case: &Case, eff: &Eff, trace: &mut Vec<String>, stats: &mut 
                         ),
                     }
                 };
-                // evidence
+                // evidence: request shapes the cache has to forward uncached
+                // (more than one question, opcode other than QUERY) meeting
+                // live entries of the ordinary shape for the same first
+                // question, and the other way round
+                {
+                    let upto = if hit { entries.len() } else { entries.len() - 1 };
+                    for e in entries[..upto].iter() {
+                        let u = &e.log.req;
+                        if lower_wire(&u.name_lower) != qn || u.qtype != q.qtype || u.qclass != q.qclass || q.qclass != 1 {
+                            continue;
+                        }
+                        let compatible = u.cd == q.cd && (u.rd || !q.rd) && (u.dok || !q.dok) && (u.adeff() || !q.adeff());
+                        let v = validity_ms(e, eff);
+                        let tc_blocked = e.parsed.as_ref().is_some_and(|p| p.tc()) && !eff.trunc;
+                        if !compatible || v == 0 || tc_blocked || t0.saturating_sub(e.log.t_ms) > v {
+                            continue;
+                        }
+                        let u_plain = u.questions.len() == 1 && u.opcode == 0;
+                        if u_plain && q.n_extra > 0 {
+                            cls("shape:multi-question-while-first-question-live", stats);
+                        }
+                        if u_plain && q.opcode != 0 {
+                            cls("shape:non-query-opcode-while-question-live", stats);
+                        }
+                        if q.is_plain() && u.questions.len() > 1 && u.opcode == 0 {
+                            cls("shape:plain-query-after-live-multi-question-fetch", stats);
+                        }
+                        if q.is_plain() && u.opcode != 0 {
+                            cls("shape:plain-query-after-live-non-query-fetch", stats);
+                        }
+                    }
+                    if q.n_extra > 0 {
+                        cls("shape:multi-question", stats);
+                    }
+                    if q.opcode != 0 {
+                        cls("shape:non-query-opcode", stats);
+                    }
+                }
                 if hit {
                     stats.hits += 1;
                     cls("hit", stats);
+                    if info.foreign_secs != 0 {
+                        cls("hit:foreign-class", stats);
+                        if info.elapsed_ms >= 2000 {
+                            cls("hit:foreign-class:aged", stats);
+                        }
+                        if info.foreign_secs & 2 != 0 {
+                            cls("hit:foreign-class:answer", stats);
+                        }
+                        if info.foreign_secs & 4 != 0 {
+                            cls("hit:foreign-class:authority", stats);
+                        }
+                        if info.foreign_secs & 8 != 0 {
+                            cls("hit:foreign-class:additional", stats);
+                        }
+                    }
                     let src = &entries[info.src].log.req;
                     let flagdiff = info.rd_down || info.do_down || info.ad_down;
                     if info.elapsed_ms > 0 {
@@ -857,7 +965,7 @@ async fn run_async(case: &Case, eff: &Eff, trace: &mut Vec<String>, stats: &mut 
                     let mut changed = false;
                     let mut earlier_live = false;
                     for e in entries[..me].iter() {
-                        if lower_wire(&e.log.req.name_lower) != qn || e.log.req.qtype != q.qtype || e.log.req.qclass != q.qclass {
+                        if e.log.req.qkey() != qk {
                             continue;
                         }
                         let u = &e.log.req;
